@@ -349,7 +349,11 @@ class HTTPRequestParser:
             if not ONLY_DIGIT_RE.match(cl.encode("latin-1")):
                 raise ParsingError("Content-Length is invalid")
 
-            cl = int(cl)
+            try:
+                cl = int(cl)
+            except ValueError:
+                # int() refuses digit strings beyond sys.get_int_max_str_digits()
+                raise ParsingError("Content-Length is invalid")
             self.content_length = cl
 
             if cl > 0:
